@@ -120,6 +120,7 @@ int cjet_timer_init(struct cjet_timer *timer, struct eventloop *loop)
 	enum eventloop_return ev_ret = timer->ev.loop->add(timer->ev.loop->this_ptr, &timer->ev);
 	if (unlikely(ev_ret == EL_ABORT_LOOP)) {
 		log_err("Could not add timer to event loop '%s'", strerror(errno));
+		socket_close(timer->ev.sock);
 		return -1;
 	} else {
 		return 0;
